@@ -1,5 +1,6 @@
 "C15 — HAML, Pug and Slim output has one line per element at its depth"
 import re
+import os
 from hypothesis import strategies as st
 from vlib import core, abbr_model as M, abbr_gen as G, outlex as L
 from vlib.core import guard
@@ -336,3 +337,9 @@ def run(ctx):
     ctx.run_parallel('shard_random', extra=(ctx.pick(300, 4000),))
     ctx.run_cases('text-parent', text_parent_cases())
     ctx.exhaustive('3 parent chains × 5 text-only items that keep their children × 6 child shapes × haml/pug/slim × 2 indents: every element on its own line at its depth')
+    if ctx.thorough or os.environ.get('VERIF_FUZZ'):
+        ctx.run_atheris('lines', ctx.pick(300, 4000), guided=True)
+
+
+# coverage-guided layer (thorough tier): the Hypothesis strategy under libFuzzer (vlib/fuzz.py, guided mode)
+GUIDED = {'lines': strategy}
